@@ -93,6 +93,56 @@ fn c62_last_rev(x: A) -> (Option<i64>, Vec<i64>, Option<(usize, i64)>) { (x.3.it
 fn c63_assign_ops(x: A) -> (i64, u8) { let mut a = x.0; a += 3; a *= 2; a -= x.1; a %= 7; a <<= 1; a |= 1; let mut b = x.1 as u8; b = b.wrapping_sub(1); b ^= 0x0f; (a, b) }
 fn c64_bool_ops(x: A) -> (bool, bool, bool) { let p = x.0 > 0; let r = x.1 > 0; (p & r, p | !r, p ^ r) }
 
+// ---- second batch: references, mutation through methods, patterns, trait dispatch, formatting
+#[derive(Debug, Clone, PartialEq)]
+struct Counter { total: i64, seen: Vec<i64> }
+impl Counter {
+    fn new() -> Self { Counter { total: 0, seen: Vec::new() } }
+    fn add(&mut self, v: i64) -> &mut Self { self.total += v; self.seen.push(v); self }
+    fn top(&self) -> Option<&i64> { self.seen.last() }
+    fn drain_big(&mut self, limit: i64) -> Vec<i64> { let (big, small): (Vec<i64>, Vec<i64>) = self.seen.iter().partition(|v| **v > limit); self.seen = small; big }
+}
+trait Shape { fn area(&self) -> i64; fn name(&self) -> String { "shape".to_string() } }
+struct Sq(i64);
+struct Rect { w: i64, h: i64 }
+impl Shape for Sq { fn area(&self) -> i64 { self.0 * self.0 } fn name(&self) -> String { format!("sq{}", self.0) } }
+impl Shape for Rect { fn area(&self) -> i64 { self.w * self.h } }
+#[derive(Debug, Clone, PartialEq)]
+enum Tree { Leaf(i64), Node(Box<Tree>, Box<Tree>) }
+fn tree_sum(t: &Tree) -> i64 { match t { Tree::Leaf(v) => *v, Tree::Node(l, r) => tree_sum(l) + tree_sum(r) } }
+fn build(d: i64, v: i64) -> Tree { if d <= 0 { Tree::Leaf(v) } else { Tree::Node(Box::new(build(d - 1, v)), Box::new(build(d - 1, v + 1))) } }
+
+fn d01_methods(x: A) -> (i64, Option<i64>, Vec<i64>, usize) { let mut c = Counter::new(); c.add(x.0).add(x.1); for v in x.3 { c.add(*v); } let big = c.drain_big(1); (c.total, c.top().copied(), big, c.seen.len()) }
+fn d02_trait_dispatch(x: A) -> (i64, String, i64, String) { let a = Sq(x.0); let b = Rect { w: x.1, h: 3 }; (a.area(), a.name(), b.area(), b.name()) }
+fn d03_dyn(x: A) -> Vec<i64> { let shapes: Vec<Box<dyn Shape>> = vec![Box::new(Sq(x.0)), Box::new(Rect { w: x.1, h: 2 })]; shapes.iter().map(|s| s.area()).collect() }
+fn d04_recursion(x: A) -> (i64, bool) { let t = build(x.0.abs() % 4, x.1); (tree_sum(&t), matches!(t, Tree::Node(..))) }
+fn d05_iter_mut(x: A) -> Vec<i64> { let mut v = x.3.to_vec(); for e in v.iter_mut() { *e += x.0; } if let Some(l) = v.last_mut() { *l *= 2; } if v.len() > 1 { v.swap(0, 1); } v }
+fn d06_while_let(x: A) -> Vec<i64> { let mut stack = x.3.to_vec(); let mut out = vec![]; while let Some(t) = stack.pop() { if t > 2 { stack.push(t - 2); } out.push(t); if out.len() > 12 { break; } } out }
+fn d07_sort_cmp(x: A) -> Vec<(i64, i64)> { let mut v: Vec<(i64, i64)> = x.3.iter().map(|e| (e % 2, *e)).collect(); v.sort_by(|a, b| b.0.cmp(&a.0).then_with(|| a.1.cmp(&b.1))); v }
+fn d08_binding_modes(x: A) -> i64 { let pair = (x.0, vec![x.1, 7]); let (ref a, ref b) = pair; let s: i64 = b.iter().sum(); match &pair { (n, v) if v.len() > 1 && *n > 0 => n + v[1], (n @ ..=0, _) => *n - s + a, _ => 0 } }
+fn d09_at_patterns(x: A) -> String { match x.0 { n @ 1..=4 => format!("low{}", n), n @ (5 | 64) => format!("pick{}", n), n if n < 0 => "neg".into(), _ => String::from("zero") } }
+fn d10_str_cmp(x: A) -> (bool, bool, std::cmp::Ordering, bool) { (x.2 < "hello", x.2 == "x_1, 42", x.2.cmp("h"), x.2.as_bytes().first() == Some(&b'h')) }
+fn d11_char_ops(x: A) -> (Vec<u32>, Option<u32>, String) { (x.2.chars().take(3).map(|c| c as u32).collect(), x.2.chars().last().and_then(|c| c.to_digit(10)), x.2.bytes().filter(|b| b.is_ascii_alphabetic()).map(|b| (b as char).to_ascii_uppercase()).collect()) }
+fn d12_write(x: A) -> String { use std::fmt::Write; let mut s = String::new(); write!(s, "{}", x.0).unwrap(); for v in x.3 { write!(s, ",{v}").unwrap(); } s.push_str(if x.1 > 0 { "+" } else { "-" }); s }
+fn d13_option_mut(x: A) -> (Option<i64>, Option<i64>) { let mut o = if x.0 > 0 { Some(x.0) } else { None }; if let Some(v) = o.as_mut() { *v += 10; } let t = o.take(); (o, t.map(|v| v * x.1)) }
+fn d14_shadow_blocks(x: A) -> i64 { let v = x.0; let v = { let v = v * 2; v + 1 }; let r = { let mut t = 0; for i in 0..3 { let v = v + i; t += v; } t }; r - v }
+fn d15_tuple_struct(x: A) -> (i64, i64) { struct P(i64, i64); let p = P(x.0, x.1); let P(a, b) = p; let q = P(b, a); (q.0 - a, q.1 * 2) }
+fn d16_array(x: A) -> ([i64; 3], i64, usize) { let mut a = [x.0; 3]; a[1] = x.1; a[2] += 1; let s = a.iter().sum(); (a, s, a.len()) }
+fn d17_nested_closures(x: A) -> i64 { let k = x.0; let mk = |m: i64| move |v: i64| v * m + k; let f = mk(x.1); let g = mk(2); f(g(3)) }
+fn d18_fold_tuple(x: A) -> (i64, i64) { x.3.iter().fold((0, 1), |(s, p), v| (s + v, p * (v % 3 + 1))) }
+fn d19_early_return_loop(x: A) -> Option<usize> { for (i, v) in x.3.iter().enumerate() { if *v == x.0 { return Some(i); } if *v < 0 { return None; } } Some(99) }
+fn d20_string_api(x: A) -> (String, bool, Option<&str>, usize) { let s = x.2.to_string(); (s.to_uppercase(), s.contains("lo w"), x.2.split(' ').nth(1), s.matches('l').count()) }
+fn d21_int_parse_fmt(x: A) -> (String, String, String) { (format!("{:?}", x.3), format!("{}-{}", x.0, x.1), format!("{:?} {:?}", Some(x.0), (x.1, x.2))) }
+fn d22_slices_eq(x: A) -> (bool, bool, bool) { (x.3 == [3, 1, 2], x.3.starts_with(&[3]), x.3.iter().rev().eq([2, 1, 3].iter())) }
+fn d23_result_chain(x: A) -> Result<i64, String> { q(x.0).and_then(|v| q(v - 3)).or_else(|e| if x.1 > 0 { Ok(x.1) } else { Err(e + "!") }).map(|v| v + 1) }
+fn d24_vec_of_vec(x: A) -> (Vec<Vec<i64>>, usize) { let mut g: Vec<Vec<i64>> = vec![Vec::new(); 3]; for v in x.3 { g[(v.rem_euclid(3)) as usize].push(*v); } let n = g.iter().map(|r| r.len()).max().unwrap_or(0); (g, n) }
+fn d25_if_let_chain(x: A) -> i64 { if let Some(a) = x.3.first() && let Some(b) = x.3.last() && a != b { a - b } else if let [only] = x.3 { *only } else { -5 } }
+fn d26_wrapping_mix(x: A) -> (u8, i16, u64) { let a = (x.0 as u8).wrapping_mul(37).wrapping_add(x.1 as u8); let b = (x.0 as i16).wrapping_neg().wrapping_abs(); let c = (x.1 as u64).wrapping_sub(1) >> 60; (a, b, c) }
+fn d27_checked_chain(x: A) -> Option<u32> { u32::try_from(x.0).ok()?.checked_sub(1)?.checked_mul(x.1.unsigned_abs() as u32 + 1)?.checked_add(7) }
+fn d28_extend_concat(x: A) -> Vec<i64> { let mut v = vec![x.0]; v.extend(x.3.iter().map(|e| e + 1)); v.extend_from_slice(&[x.1, x.1]); let w = [v.clone(), vec![0]].concat(); w }
+fn d29_bool_short_circuit(x: A) -> (bool, i64) { let mut n = 0; let mut bump = || { n += 1; true }; let r = (x.0 > 0 && bump()) || (x.1 > 0 && bump() && bump()); (r, n) }
+fn d30_default_struct(x: A) -> (Rec, bool) { let r = Rec::default(); let s = Rec { items: vec![x.0], ..r.clone() }; (s.clone(), r == Rec::default() && s != r) }
+
 fn main() {
     let avals = [-7i64, -1, 0, 1, 2, 5, 64];
     let bvals = [-3i64, 0, 1, 2];
@@ -110,5 +160,8 @@ fn main() {
          c25_slices, c26_index_panic, c27_split_first, c28_slice_pat, c29_option, c30_option2, c31_result, c32_try, c33_match_guard, c34_enum, c35_enum_into, c36_struct,
          c37_struct_eq, c38_loops, c39_for_range, c40_labeled, c41_hashset, c42_hashmap, c43_closure_capture, c44_fn_pointer, c45_binary_search, c46_retain_insert,
          c47_windows_chunks, c48_take_skip, c49_find_map, c50_try_from, c51_int_helpers, c52_saturating, c53_mem, c54_tuple_destructure, c55_char_tests, c56_parse,
-         c57_unzip_partition, c58_nested_option, c59_let_else, c60_strip, c61_display_floats, c62_last_rev, c63_assign_ops, c64_bool_ops);
+         c57_unzip_partition, c58_nested_option, c59_let_else, c60_strip, c61_display_floats, c62_last_rev, c63_assign_ops, c64_bool_ops,
+         d01_methods, d02_trait_dispatch, d03_dyn, d04_recursion, d05_iter_mut, d06_while_let, d07_sort_cmp, d08_binding_modes, d09_at_patterns, d10_str_cmp, d11_char_ops, d12_write,
+         d13_option_mut, d14_shadow_blocks, d15_tuple_struct, d16_array, d17_nested_closures, d18_fold_tuple, d19_early_return_loop, d20_string_api, d21_int_parse_fmt, d22_slices_eq,
+         d23_result_chain, d24_vec_of_vec, d25_if_let_chain, d26_wrapping_mix, d27_checked_chain, d28_extend_concat, d29_bool_short_circuit, d30_default_struct);
 }
